@@ -343,3 +343,91 @@ Definition pow10_faithful (p : Z) (w : spec_float) : bool :=
                     end
        | None => false
        end.
+
+(* ================= specification-side helpers (used by the statements and by the oracle, not by the model) ================= *)
+
+(* ---------- exact arithmetic on finite binary64 values ---------- *)
+
+(* a finite float as (M, E): value M * 2^E *)
+Definition sf_ME (f : spec_float) : Z * Z :=
+  match f with
+  | S754_finite s m e => (cond_Zopp s (Zpos m), e)
+  | _ => (0, 0)
+  end.
+
+(* both at the smaller exponent *)
+Definition common (x y : spec_float) : Z * Z * Z :=
+  let '(mx, ex) := sf_ME x in
+  let '(my, ey) := sf_ME y in
+  let e := Z.min ex ey in
+  (mx * 2 ^ (ex - e), my * 2 ^ (ey - e), e).
+
+Definition f_leq (x y : spec_float) : bool := let '(a, b, _) := common x y in a <=? b.
+
+Definition clamp400 (p : Z) : Z := Z.max (-400) (Z.min 400 p).
+
+(* |x - y| <= 10^-p + ulp(y)/2, exactly: y is within half a unit in its last place (the unavoidable representation
+   error of a binary64 result: floor(-1e-76, 2) = -0.01, and the double nearest to -0.01 is 2e-19 beyond it) of a real
+   number that is within 10^-p of x.  Differences of binary64 numbers are multiples of 2^-1074 > 10^-400 and smaller
+   than 2^1025 < 10^400, so clamping p to [-400, 400] does not change the answer. *)
+Definition within_pow10 (x y : spec_float) (p : Z) : bool :=
+  let '(a, b, e) := common x y in
+  let p := clamp400 p in
+  let half_ulp2 := match y with S754_finite _ _ ey => 2 ^ (ey - e) | _ => 0 end in    (* 2 * (ulp(y)/2) / 2^e *)
+  let num := (2 * Z.abs (a - b) - half_ulp2) * (if 0 <=? e then 2 ^ e else 1) * (if 0 <=? p then 10 ^ p else 1) in
+  let den := 2 * (if 0 <=? e then 1 else 2 ^ (- e)) * (if 0 <=? p then 1 else 10 ^ (- p)) in
+  num <=? den.
+
+Definition round_law (k : rkind) (x y : spec_float) (p : Z) : bool :=
+  f_is_finite y && within_pow10 x y p
+  && match k with KCeil => f_leq x y | KFloor => f_leq y x | KRound => true end.
+
+
+(* the exact integer value of a float, when it has one *)
+Definition f_int_value (f : spec_float) : option Z :=
+  match f with
+  | S754_zero _ => Some 0
+  | S754_finite s m e =>
+      if 0 <=? e then Some (cond_Zopp s (Zpos m * 2 ^ e))
+      else if Zpos m mod 2 ^ (- e) =? 0 then Some (cond_Zopp s (Zpos m / 2 ^ (- e)))
+      else None
+  | _ => None
+  end.
+
+(* ---------- the regimes of round_to_precision (num, p) given w = 10f64.powf(p) ---------- *)
+
+Definition f_is_inf (f : spec_float) : bool := match f with S754_infinity _ => true | _ => false end.
+
+(* x * w computed without rounding equals the float t *)
+Definition product_exact (x w t : spec_float) : bool :=
+  match x, w, t with
+  | S754_finite sx mx ex, S754_finite sw mw ew, S754_finite st mt et =>
+      let e := Z.min (ex + ew) et in
+      Bool.eqb (xorb sx sw) st && (Zpos mx * Zpos mw * 2 ^ (ex + ew - e) =? Zpos mt * 2 ^ (et - e))
+  | S754_zero _, S754_finite _ _ _, S754_zero _ => true
+  | _, _, _ => false
+  end.
+
+Inductive rclass :=
+| RcRange          (* the multiplier 10^p is 0 or +inf, or x * 10^p overflows / underflows to zero, or the quotient overflows *)
+| RcBig            (* |x * 10^p| >= 2^52: the product is an integer already, the result is (x * m) / m, rounded twice *)
+| RcInexactMult    (* p < 0 or p > 22: 10^p is not a binary64 number, the multiplier carries a rounding error *)
+| RcProductRounds  (* 0 <= p <= 22 but the multiplication x * 10^p rounds *)
+| RcGood.          (* everything before the final division is exact *)
+
+Definition round_class (k : rkind) (x : spec_float) (p : Z) (w : spec_float) : rclass :=
+  let t := f_mul x w in
+  let q := f_div (f_rint k t) w in
+  if negb (f_is_finite w) || f_is_zero w
+     || (negb (f_is_zero x) && (f_is_zero t || negb (f_is_finite t)))
+     || negb (f_is_finite q) then RcRange
+  else if (match t with S754_finite _ _ e => 0 <=? e | _ => false end) then RcBig
+  else if (p <? 0) || (22 <? p) then RcInexactMult
+  else if negb (product_exact x w t) then RcProductRounds
+  else RcGood.
+
+Definition rclass_eqb (a b : rclass) : bool :=
+  match a, b with
+  | RcRange, RcRange | RcBig, RcBig | RcInexactMult, RcInexactMult | RcProductRounds, RcProductRounds | RcGood, RcGood => true
+  | _, _ => false
+  end.
